@@ -227,6 +227,44 @@ MUTATIONS = {
     ],
 }
 # entries whose replacement is marked 'n/a' are semantically harmless edits: they must NOT raise an alarm
+# unit `stacks`: the tower stacks around a call (client: AddOrigin / UserAgent / Connection / Channel / SendRequest; server: Svc / MakeSvc)
+_AO = 'tonic/src/transport/channel/service/add_origin.rs'
+_UA = 'tonic/src/transport/channel/service/user_agent.rs'
+_CN = 'tonic/src/transport/channel/service/connection.rs'
+_SV = 'tonic/src/transport/server/mod.rs'
+_CH = 'tonic/src/transport/channel/mod.rs'
+_STACKS = {
+    'C05': [
+        ('serverglue', 'tonic/src/response.rs', r'\.insert\(crate::codec::compression::SingleMessageCompressionOverride::Disable\);', '.insert(crate::codec::compression::SingleMessageCompressionOverride::Inherit);', 'Response::disable_compression records no opt-out'),
+    ],
+    'C09': [
+        ('stacks', _CN, r'GrpcTimeout::new\(s, endpoint\.timeout\)', 'GrpcTimeout::new(s, None)', 'the endpoint timeout never reaches the timeout layer of the channel'),
+        ('stacks', _SV, r'(fn call\(&mut self, io: &ServerIo<IO>\)[\s\S]*?)let timeout = self\.timeout;', r'\1let timeout = None;', 'the server timeout never reaches the per-connection timeout layer'),
+        ('stacks', 'tonic/src/transport/service/grpc_timeout.rs', r'(pub\(crate\) fn new\(inner: S, server_timeout: Option<Duration>\) -> Self \{\s*Self \{\s*inner,\s*)server_timeout,', r'\1server_timeout: None,', 'GrpcTimeout::new forgets the configured timeout'),
+    ],
+    'C14': [
+        ('stacks', _CN, r'endpoint\.uri\(\)\.clone\(\), is_lazy\)', 'endpoint.uri().clone(), true)', 'every channel is lazy: an eager connect cannot report its first failure'),
+        ('stacks', _AO, r'if self\.scheme\.is_none\(\) \|\| self\.authority\.is_none\(\) \{', 'if self.scheme.is_none() && self.authority.is_none() {', 'an origin without authority reaches Uri::from_parts(..).expect and panics'),
+        ('stacks', _CH, r'let inner = Service::call\(&mut self\.svc, request\);', 'let inner = Service::call(&mut self.svc, http::Request::new(request.into_body()));', 'the channel hands the connection another request than the one it was given'),
+    ],
+    'C03': [
+        ('stacks', _AO, r'uri\.authority = self\.authority\.clone\(\);', '', 'the request keeps the authority it came with instead of the origin'),
+        ('stacks', _CN, r'endpoint\.origin\.as_ref\(\)\.unwrap_or\(endpoint\.uri\(\)\)\.clone\(\)', 'endpoint.uri().clone()', 'a configured origin is ignored'),
+    ],
+    'C08': [
+        ('reqresp', 'tonic/src/request.rs', r'(impl<T> IntoRequest<T> for Request<T> \{\s*fn into_request\(self\) -> Request<T> \{\s*)self', r'\1Request::new(self.message)', 'a Request handed to a generated client loses its metadata'),
+        ('stacks', _UA, r'\.insert\(USER_AGENT, self\.user_agent\.clone\(\)\);', '.append(USER_AGENT, self.user_agent.clone());', 'the user-agent of the caller is kept next to the one of the channel'),
+        ('stacks', _AO, r'let request = Request::from_parts\(head, body\);', 'let mut request = Request::from_parts(head, body); *request.headers_mut() = http::HeaderMap::new();', 'AddOrigin drops every header'),
+        ('stacks', _SV, r'let response = response\.map\(\|body\| Body::new\(body\.map_err\(Into::into\)\)\);', 'let response = response.map(|body| Body::new(body.map_err(Into::into))); let (mut verif_p, verif_b) = response.into_parts(); verif_p.headers = http::HeaderMap::new(); let response = Response::from_parts(verif_p, verif_b);', 'the server future drops the response head (headers, status)'),
+    ],
+    'C02': [
+        ('stacks', _SV, r'req = Request::from_parts\(parts, body\);', 'req = Request::new(body);', 'a traced request loses its head on the way to the service'),
+        ('stacks', _CN, r'fut\.await\.map_err\(Into::into\)\.map\(\|res\| res\.map\(Body::new\)\)', 'fut.await.map_err(Into::into).map(|res| Response::new(Body::new(res.into_body())))', 'the response from the connection loses its head'),
+    ],
+}
+for _k, _v in _STACKS.items():
+    MUTATIONS.setdefault(_k, []).extend(_v)
+
 HARMLESS = {'n/a'}
 
 
